@@ -72,14 +72,16 @@ def observe(cfg, xs):
     """run the real code on one prefix; xs = list of Fractions (exact dyadics)"""
     n = len(xs)
     x = np.array([float(v) for v in xs], dtype=float)
-    obs = {"p": None, "hist": None, "eta": None, "lam": None, "exc": None}
+    obs = {"p": None, "hist": None, "eta": None, "lam": None, "exc": None, "mutated": False}
     with warnings.catch_warnings():
         warnings.simplefilter("ignore")
         try:
             nm = make(cfg)
-            p, h = nm.test(x.copy())
+            xin = x.copy()  # the auditor's own array: a test must not change the data it is shown
+            p, h = nm.test(xin)
             obs["p"] = float(p)
             obs["hist"] = [float(v) for v in np.asarray(h, dtype=float).ravel()]
+            obs["mutated"] = not np.array_equal(xin, x)
         except Exception as e:  # noqa
             obs["exc"] = f"{type(e).__name__}: {str(e)[:80]}"
         if cfg["test"] == "alpha_mart":
